@@ -148,7 +148,8 @@ TRUSTED = [
     "the re-used transcriptions Model/C06.lean (get_bin_on_value, check_edges_increasing, init_bins), Model/NArr.lean "
     "(md_map, get_bin_on_index, itertools.product) and Model/C14.lean (Variable._update_context, get_data_context), "
     "validated by their own checks and again here; the oracle's expectation for context.variable is computed with the "
-    "real Variable._update_context (what it does to an existing context.variable is C14's subject)",
+    "real Variable.__call__ (public; a variable with the identity as getter and the same var_context; what it does to an "
+    "existing context.variable is C14's subject)",
     "dictionaries as slot vectors over the key alphabet of the case (DESIGN.md section 2)",
     "VALUE MODEL: copy.deepcopy is the identity, an analysis is a function of its own state, MapBins' sequence a "
     "function of one cell. Hence 'private copy', 'cells share nothing', 'the context as the value arrived' are NOT "
@@ -206,8 +207,14 @@ ASSUMPTIONS = [
     "adversary round: all ten candidates (notes/adversary_C11.md) were judged inside the statement and its quantifier; "
     "infinite coordinates (float inf / -inf: values outside any edges) stand for the integers +-2**400 in the model; "
     "not generated (open): nan coordinates, 5 and more dimensions, fill() after compute()",
-    "the private attributes `_cur_context` and the cells' `_fill_compute` are read because cell_is_subflow and "
-    "context_is_last_inside speak about them; when they are not found they are not compared",
+    "the harness uses the public interface of lena only: the state of a cell (cell_is_subflow) is the state of the "
+    "fixture accumulator, which is reached through SplitIntoBins.bins and the iteration over the elements of the cell's "
+    "sequence (LenaSequence.__iter__); the oracle's expectation for context.variable is computed with Variable.__call__. "
+    "The only private name read is SplitIntoBins._cur_context (context_is_last_inside speaks about it before compute(); "
+    "there is no public reader: compute() yields it only with the argument variable applied and only if every cell "
+    "yields a result): it is read with getattr; when it is missing (or the accumulator cannot be reached) that "
+    "observation is skipped for the case and counted in the evidence notes - never an alarm; the contexts compute() "
+    "yields are always compared",
     "cases whose model reply contains `unmodelled` are not compared; they are counted in the evidence notes and the "
     "check fails when they exceed 1% of the cases",
 ]
@@ -791,17 +798,46 @@ def _iter_cells(bins, idx=()):
         yield idx, bins
 
 
+class _Unobservable(Exception):
+    """the fixture accumulator of a cell cannot be reached through the public sequence interface: the state of the
+    cells is not observed for this case (counted in the evidence notes, never an alarm)"""
+
+
 def _acc_of(cell):
-    return cell if isinstance(cell, _Acc) else cell._fill_compute
+    """the fixture accumulator of an analysis (for a two-level split: its inner SplitIntoBins), i.e. the FillCompute
+    element of the FillComputeSeq.  It is found through the PUBLIC sequence interface of lena.core.LenaSequence
+    (iteration over the elements): the fixture analyses have no other fill/compute element before it (`pre` holds
+    no `count` / `acc` step), so the first element that is an _Acc or a SplitIntoBins is the one that is filled.
+    None if there is none."""
+    if isinstance(cell, _Acc):
+        return cell
+    from lena.structures import SplitIntoBins
+    try:
+        for el in cell:
+            if isinstance(el, (_Acc, SplitIntoBins)):
+                return el
+    except Exception:
+        pass
+    return None
+
+
+def _cur_of(sib, nm):
+    """`_cur_context` of a SplitIntoBins is a private attribute without a public reader (compute() yields it only
+    after the argument variable has been applied, and only if the cells yield something): it is read if it is there
+    and skipped (None) otherwise"""
+    cur = getattr(sib, "_cur_context", None)
+    return _slots(cur, nm) if isinstance(cur, dict) else None
 
 
 def _acc_state(a, nm):
+    if a is None:
+        raise _Unobservable()
     if isinstance(a, _Acc):
         return {"sum": _slots(a.sum, nm), "count": a.count, "stored": [_enc_value(v, nm) for v in a.stored],
                 "last": _slots(a.context, nm)}
-    # the inner SplitIntoBins of a two-level split
+    # the inner SplitIntoBins of a two-level split (`bins` is a public attribute)
     return {"cells": [[list(i), _acc_state(_acc_of(c), nm)] for i, c in _iter_cells(a.bins)],
-            "cur": _slots(a._cur_context, nm)}
+            "cur": _cur_of(a, nm)}
 
 
 def _enc_fval(o, nm):
@@ -1069,13 +1105,14 @@ def run_impl(case):
     if shared is not None:
         _inplace_clobber(shared)
     res = {}
-    # the state of the cells and `_cur_context` are private attributes: they are read because `cell_is_subflow` and
-    # `context_is_last_inside` speak about them; when they cannot be found (a refactoring) they are not compared
+    # the state of the cells (`cell_is_subflow`): `bins` is public, a cell is a sequence whose elements can be iterated
+    # (public), the accumulator is a fixture object of this harness.  `_cur_context` (`context_is_last_inside`) is a
+    # private attribute: read if present.  What cannot be reached is not compared (None; counted in the evidence notes)
     try:
         res["cells"] = [[list(idx), _acc_state(_acc_of(cell), nm)] for idx, cell in _iter_cells(sib.bins)]
-    except AttributeError:
+    except _Unobservable:
         res["cells"] = None
-    res["cur"] = _slots(sib._cur_context, nm) if hasattr(sib, "_cur_context") else None
+    res["cur"] = _cur_of(sib, nm)
     res["compute"], hists, live = _drain_compute(sib, nm, True)
     res["compute_late"] = res["compute"].pop("late")
     # a second compute() on the same object
@@ -1083,8 +1120,9 @@ def run_impl(case):
     if res["compute2"] is not None:
         res["compute2"].pop("late")
     # the object that was passed as `seq` must not be a cell and must not have been filled
-    res["seq_private"] = not any(cell is seq or _acc_of(cell) is _acc_of(seq) for _, cell in _iter_cells(sib.bins)) \
-        and _untouched(seq)
+    seq_acc = _acc_of(seq)
+    res["seq_private"] = not any(cell is seq or (seq_acc is not None and _acc_of(cell) is seq_acc)
+                                 for _, cell in _iter_cells(sib.bins)) and _untouched(seq)
     # a second SplitIntoBins built from the SAME analysis object and the SAME argument-variable object
     res["reuse"] = None
     if case.get("reuse"):
@@ -1223,6 +1261,32 @@ def _count_unmodelled(hit):
     return _UNMODELLED[0] > max(20, _UNMODELLED[1] // 100)
 
 
+_SKIPPED = [0, 0, 0]
+
+
+def _count_skipped(cells, cur):
+    """evidence: cases whose cell states could not be reached through the public sequence interface, and cases whose
+    private `_cur_context` could not be read (these observations are skipped, everything else is compared)"""
+    _SKIPPED[0] += 1
+    _SKIPPED[1] += bool(cells)
+    _SKIPPED[2] += bool(cur)
+    note = (f"observations skipped because they are not reachable on this implementation: cell states in {_SKIPPED[1]}, "
+            f"private _cur_context in {_SKIPPED[2]} of {_SKIPPED[0]} compared cases")
+    if len(_NOTES) < 2:
+        _NOTES.append(note)
+    else:
+        _NOTES[1] = note
+
+
+def _inner_cur_missing(cells):
+    """a two-level split: the state of a cell is {"cells": .., "cur": ..}; is some inner `cur` None?"""
+    return any("cells" in st and (st["cur"] is None or _inner_cur_missing(st["cells"])) for _, st in cells or [])
+
+
+def _drop_inner_cur(cells):
+    return [[i, ({"cells": _drop_inner_cur(st["cells"])} if "cells" in st else st)] for i, st in cells]
+
+
 def _has_unmodelled(o):
     if isinstance(o, dict):
         return any(_has_unmodelled(v) for v in o.values())
@@ -1310,9 +1374,14 @@ def compare(case, res, replies):
         # rounded by the real code (the analyses of these cases never yield them)
         res = dict(res, cells=_mask_sums(res["cells"]))
         m = dict(m, cells=_mask_sums(m["cells"]))
+    _count_skipped(res["cells"] is None, res["cur"] is None or _inner_cur_missing(res["cells"]))
+    if _inner_cur_missing(res["cells"]):
+        # the private `_cur_context` of the inner SplitIntoBins objects could not be read: not compared
+        res = dict(res, cells=_drop_inner_cur(res["cells"]))
+        m = dict(m, cells=_drop_inner_cur(m["cells"]))
     for k in ("cells", "cur", "compute", "compute2", "pipe"):
         if k in ("cells", "cur") and res[k] is None:
-            continue                       # private attributes not found: not compared
+            continue                       # not reachable (cells) / private attribute not found (cur): not compared
         if res[k] != m[k]:
             return f"{k}: impl {str(res[k])[:700]} vs model {str(m[k])[:700]}"
     if res.get("reuse") is not None and res["reuse"] != m["compute"]:
@@ -1441,14 +1510,24 @@ def _reference_sib(case):
         else:
             n += 1
     # the context: that of the last value inside the edges, as it arrived, with the variable applied
-    from lena.variables import Variable
     ctx = copy.deepcopy(_split(last_inside)[1]) if last_inside is not None else {}
     try:
-        Variable._update_context(ctx, _argvar_context(case["argvar"]))
+        ctx = _apply_var_context(ctx, _argvar_context(case["argvar"]))
     except Exception:
         ctx = None
     hists = [_nest([results[k][j] for k in range(len(cells))], dims) for j in range(n)]
     return {"dims": dims, "n": n, "end": end, "hists": hists, "ctx": ctx, "inside": sum(len(s) for s in sub.values())}
+
+
+def _apply_var_context(ctx, var_context):
+    """`ctx` after a variable with the context `var_context` has been applied to a value that carries it, through the
+    PUBLIC interface: Variable.__call__ on a variable with the identity as getter and that `var_context` (a public
+    attribute).  What a variable does to an existing context.variable is C14's subject."""
+    from lena.variables import Variable
+    v = Variable("v", lambda data: data)
+    v.var_context.clear()
+    v.var_context.update(copy.deepcopy(var_context))
+    return v((None, ctx))[1]
 
 
 def _ref_update_nested(key, d, other):
